@@ -448,7 +448,10 @@ C08(o) ==
                  <<r, outstanding(r), e.burned, e.premine, e.mints, amt>>)
      /\ \A x \in DOMAIN B :
           /\ \A r \in DOMAIN B[x] : Chk("C08.balance", B[x][r] > 0 /\ r \in DOMAIN E, <<x, r, B[x][r]>>)
-          /\ Chk("C08.opret", x \in DOMAIN L.meta /\ L.meta[x].kind # "opret" /\ ~Has(o.outs[x], "absent"), x)
+          \* runes sit only on outputs that exist and are not OP_RETURN; only the sat and address indexes give every
+          \* unspent output an entry of its own in the output table, so without them its absence there means nothing
+          /\ Chk("C08.opret", x \in DOMAIN L.meta /\ L.meta[x].kind # "opret"
+                              /\ (Has(o.outs[x], "absent") => (~cfg.flags.sats /\ ~cfg.flags.addresses)), x)
      /\ Chk("C08.unknownOuts", o.unknownRuneOuts = <<>>, o.unknownRuneOuts)
 
 C09(o) ==
